@@ -461,6 +461,55 @@ def rule_r4(chk):
                 chk.ob("C20-R4", f"{short}.{cls}[{nm} None-safe]", not omit_sites,
                        f"{fld} defaults to None and is joined unconditionally; constructed without it at {omit_sites[:3]} (TypeError in to_portable)"
                        if omit_sites else "joined field is never None", m.loc(tp))
+        # round trip by finite evaluation: from_portable(to_portable(x)) constructs x again, field by field - with the values the fields
+        # really take (log status is TRI-state: None = not loggable, False, True; descriptions may be empty; several attributes)
+        from .. import fin
+        import itertools as _it2
+
+        class _K(fin.FinObj):
+            def __init__(self):
+                super().__init__(made=[])
+            def __call__(self, **kw):
+                self.made.append(kw)
+                return fin.FinObj(**kw)
+        kind_of = {"KIND_A": "#a", "KIND_B": "#b"}
+        funcs = {f"{cls}Kind.from_portable": lambda c: {v: k for k, v in kind_of.items()}[c], "str": str, "bool": bool}
+        bad = None
+        n_rt = 0
+        try:
+            for kind, human, logly, desc, attrs in _it2.product(kind_of, ("x", "a + b = c"), (None, False, True), ("", "some text"), ({"one"}, {"a", "b"})):
+                fields = dict(kind=fin.FinObj(to_portable=lambda k=kind: kind_of[k]), human=human, description=desc, attributes=set(attrs))
+                if cls == "Quantity":
+                    fields["logly"] = logly
+                elif logly is not None:
+                    continue
+                me = fin.FinObj(**fields)
+                args = {params(tp)[0]: me}
+                other_human = human + " !!" if cls == "Equation" and desc else human
+                if cls == "Equation":
+                    args[params(tp)[1]] = fin.FinObj(**dict(fields, human=other_human))
+                portable = fin.run_function(tp, args, funcs)
+                k = _K()
+                fin.run_function(fp, {params(fp)[0]: k, params(fp)[1]: portable}, dict(funcs, **{params(fp)[0]: k}))
+                n_rt += 1
+                want = [dict(fields, kind=kind)] + ([dict(fields, kind=kind, human=other_human)] if cls == "Equation" else [])
+                got = k.made
+                for w_, g_ in zip(want, got):
+                    diff = [(fld, w_[fld], g_.get(fld, "<missing>")) for fld in w_ if g_.get(fld, "<missing>") is not w_[fld] and (g_.get(fld, "<missing>") != w_[fld]
+                            or type(g_.get(fld)) is not type(w_[fld]))]
+                    if diff:
+                        fld, a_, b_ = diff[0]
+                        bad = f"{cls}({', '.join(f'{x}={y!r}' for x, y in w_.items() if x != 'kind')}) comes back with {fld}={b_!r} instead of {a_!r}"
+                        break
+                if len(got) != len(want):
+                    bad = f"from_portable constructs {len(got)} object(s), expected {len(want)}"
+                if bad:
+                    break
+        except (fin.NotFinite, fin.Raised, TypeError, AttributeError, KeyError, ValueError) as ex:
+            chk.undecided("C20-R4", f"{short}.{cls}[round trip]", f"not finitely evaluable: {type(ex).__name__}: {ex}", m.loc(fp))
+        else:
+            chk.ob("C20-R4", f"{short}.{cls}[round trip]", bad is None, bad or f"{n_rt} objects (tri-state log status, empty and non-empty descriptions, one and two attributes) "
+                   "are reconstructed field by field, with the same types", m.loc(fp), sure=True)
         # kind tables
         tab = m.assign("_TO_PORTABLES")
         codes = [literal(v) for v in tab.values]
